@@ -24,6 +24,10 @@ CACHE_DIR = os.path.join(core.VERIF, '.cache')
 PREC_MODE = os.environ.get('EDB_VERIF_PREC_MODE', 'last')
 
 
+class LexerCrash(Exception):
+    """the real tokenizer process died on this input (a Rust panic)"""
+
+
 class SyntaxError(Exception):      # noqa: A001  (mirrors _edgeql_parser.SyntaxError)
     pass
 
@@ -78,11 +82,22 @@ class _Lexer:
         with self.lock:
             if self.proc is None or self.proc.poll() is not None:
                 self._start()
-            self.proc.stdin.write(text.encode('utf-8').hex() + '\n')
-            self.proc.stdin.flush()
-            line = self.proc.stdout.readline()
+            try:
+                self.proc.stdin.write(text.encode('utf-8').hex() + '\n')
+                self.proc.stdin.flush()
+                line = self.proc.stdout.readline()
+            except BrokenPipeError:
+                line = ''
+            if not line:
+                # the real tokenizer crashed (panic) on this input: reap it so the next call restarts it
+                try:
+                    self.proc.kill()
+                    self.proc.wait(timeout=5)
+                except Exception:
+                    pass
+                self.proc = None
         if not line:
-            raise core.Infra('edb_lex died')
+            raise LexerCrash(text)
         return line.rstrip('\n')
 
 
@@ -291,7 +306,10 @@ def _choose(states, la):
         return ('r', p)
     if a == 'right':
         return ('s', sh)
-    return None                      # nonassoc / fail
+    # nonassoc / fail: yacc removes both actions; this is a syntax error of the
+    # REAL tables (not an LALR artefact), so a simulation reaching it must not
+    # conclude that the reduction leading here was invalid.
+    return ('e', None)
 
 
 def _rr(valid):
@@ -321,7 +339,7 @@ def _sim_reduce(states, p, la) -> bool:
         act = _choose(st, la)
         if act is None:
             return False
-        if act[0] == 's':
+        if act[0] in ('s', 'e'):
             return True
         p = act[1]
 
@@ -348,7 +366,7 @@ def parse(start_name: str, tokens):
             return _error(item), _STATE['productions']
         while True:
             act = _choose(states, la)
-            if act is None:
+            if act is None or act[0] == 'e':
                 return _error(item), _STATE['productions']
             if act[0] == 's':
                 states.append(act[1])
